@@ -1,5 +1,8 @@
 """C07 - key files: used verbatim, created once, rejected if malformed, never retained."""
+import base64
+import json
 import os
+import pathlib
 
 from .. import aes_ref
 from ..common import weighted
@@ -15,7 +18,9 @@ RULE = ("a case is a history of 2-40 steps {new KeyFile object, enter, exit (pro
         "regular file}; checked against a 20-line model (file bytes; per object: depth, key); non-trivial = at least "
         "one enter and one encrypt/decrypt were judged; distinct = distinct (initial state, step list)")
 REQUIRED = ("public_generate_key_calls", "key_file_names_a_shell_would_expand", "key_file_names_with_percent_sign", "key_file_named_through_symlink_and_dotdot", "key_file_named_relative_to_home", "key_file_replaced_with_preserved_timestamps", "exits_with_exception", "enter_ok_judged", "enter_rejected_judged", "key_measured_from_xor", "outside_context_rejected",
-            "retention_scans", "created_once_checked", "nested_enter_judged", "reenter_after_rejection_judged")
+            "retention_scans", "created_once_checked", "nested_enter_judged", "reenter_after_rejection_judged",
+            "key_file_named_by_bytes_path", "key_file_named_by_pathlib_path", "config_ops_followed_by_closed_object_checks",
+            "config_failed_loads_that_reached_the_key_file", "config_key_measured_after_a_failed_operation")
 ASSUMPTIONS = ["the key in use is measured as xor_ciphertext XOR known_plaintext (48 bytes) and by decrypting AES "
                "output with the pure-Python oracle under the expected key",
                "external changes of the key file are only made while no key context is open (the property speaks of "
@@ -23,6 +28,8 @@ ASSUMPTIONS = ["the key in use is measured as xor_ciphertext XOR known_plaintext
 SHRINK_KEY = "steps"
 SIZES = [0, 1, 16, 31, 33, 64]
 PLAIN = bytes(range(7, 55))  # 48 known bytes
+PATHTYPES = ["str", "str", "str", "bytes", "path"]
+BAD_DOCS = ["aes-short", "aes-short", "method-unknown", "aes-padding", "xor-not-text", "other-field"]
 
 
 def _file_state(rng):
@@ -125,6 +132,8 @@ def _unreadable_key_file(case, ctx, res):
 def generate(rng, ctx):
     if rng.random() < 0.01:
         return {"where": "unreadable", "r": rng.getrandbits(16), "init": {"state": "valid"}, "nobj": 1, "steps": []}
+    if rng.random() < 0.12:
+        return _generate_config_case(rng, ctx)
     where = weighted(rng, [(10, "ok"), (1, "parent_missing"), (1, "parent_is_file")])
     init = _file_state(rng) if where == "ok" else {"state": "absent"}
     nobj = rng.choice([1, 1, 2, 3])
@@ -179,7 +188,219 @@ def generate(rng, ctx):
             "pathform": rng.choice(["abs", "abs", "home", "symlink-dotdot"]) if where == "ok" else "abs",
             # file names with characters that mean something to string formatting, shells, URLs
             "fname": rng.choice(["app.key", "app.key", "app%20key.bin", "100%.key", "k%s.key", "key {0}.bin", "cl\u00e9.key", "a b.key",
-                                "app-$VFSTAGE.key", "${VFSTAGE}.key"])}
+                                "app-$VFSTAGE.key", "${VFSTAGE}.key"]),
+            # the type of the name: text, a bytes path (os.fsencode, os.listdir(b".")) or a pathlib.Path
+            "pathtype": rng.choice(PATHTYPES)}
+
+
+def _generate_config_case(rng, ctx):
+    """A configuration with a SecureField is the everyday user of a key file: it opens and closes the key contexts itself, once
+    per value.  Steps: set the secret and dump / save it (the key in use is measured), load a document whose secret was
+    encrypted under the file's content, load a document that FAILS after the key file has been reached (undecryptable secret,
+    unknown method, text that is not UTF-8, another field refused), external change of the file between two operations."""
+    init = _file_state(rng) if rng.random() < 0.35 else {"state": "valid", "bytes": rng.randbytes(32)}
+    letters = "abcdefghijklmnopqrstuvwxyzABCDEFGHIJKLMNOPQRSTUVWXYZ0123456789 -_.:/"
+
+    def text():
+        return "".join(rng.choice(letters) for _ in range(rng.randrange(8, 49))).strip() or "secret"
+
+    def via():
+        return rng.choice(["string", "string", "file"])
+
+    steps = []
+    for _ in range(rng.randrange(3, 15 if ctx.tier == "thorough" else 11)):
+        kind = weighted(rng, [(4, "dump"), (3, "loadgood"), (5, "loadbad"), (3, "file")])
+        if kind == "dump":
+            steps.append(["dump", via(), text()])
+        elif kind == "loadgood":
+            steps.append(["loadgood", via(), text(), rng.choice(["xor", "aes"]), rng.getrandbits(16)])
+        elif kind == "loadbad":
+            steps.append(["loadbad", via(), rng.choice(BAD_DOCS), rng.getrandbits(16), text()])
+            if rng.random() < 0.5:
+                # the session after the failed one: the file may have been given another key in between
+                if rng.random() < 0.6:
+                    steps.append(["file", {"state": "valid", "bytes": rng.randbytes(32)}])
+                steps.append(["dump", via(), text()])
+        else:
+            st = _file_state(rng) if rng.random() < 0.5 else {"state": "valid", "bytes": rng.randbytes(32)}
+            if rng.random() < 0.4:
+                st["keep_times"] = True
+            steps.append(["file", st])
+    steps.append(["dump", via(), text()])
+    return {"where": "config", "init": init, "nobj": 1, "steps": steps, "method": rng.choice(["xor", "xor", "aes", "best"]),
+            "nested": rng.random() < 0.4, "pathform": rng.choice(["abs", "abs", "home", "symlink-dotdot"]),
+            "fname": rng.choice(["app.key", "app.key", "100%.key", "key {0}.bin", "a b.key"]), "pathtype": rng.choice(PATHTYPES)}
+
+
+def _config_sessions(case, ctx, res, path, given):
+    """Key contexts opened and closed by a configuration (see _generate_config_case).  Between two operations of the
+    configuration no key context is open, so its key object must refuse to work and hold no key material - also when the
+    operation failed -, and every operation is a session of its own that uses the key file as it is then."""
+    cc = ctx.cc
+    nested = case["nested"]
+    schema = cc.Schema()
+    schema.name = cc.StringField(default="x")
+    schema.port = cc.IntField(default=1, min=1, max=100)
+    if nested:
+        schema.db.secret = cc.SecureField(method=case["method"])
+    else:
+        schema.secret = cc.SecureField(method=case["method"])
+    cfg = schema(key_filename=given)
+    docpath = os.path.join(ctx.dir, "c07-document.json")
+    everkeys = []
+    model_file = _read(path)
+    failed_before = False
+    judged = 0
+
+    def doc_of(node, **more):
+        tree = dict({"name": "n"}, **more)
+        if nested:
+            tree["db"] = {"secret": node}
+        else:
+            tree["secret"] = node
+        return json.dumps(tree).encode()
+
+    def node_of(method, ciphertext):
+        return {"method": method, "ciphertext": base64.b64encode(ciphertext).decode()}
+
+    def load(via, raw):
+        if via == "file":
+            with open(docpath, "wb") as fp:
+                fp.write(raw)
+            cfg.load(docpath, format="json")
+        else:
+            cfg.loads(raw, format="json")
+
+    for idx, step in enumerate(case["steps"]):
+        kind = step[0]
+        if kind == "file":
+            if step[1].get("keep_times") and step[1]["state"] != "absent" and model_file is not None:
+                res.count("key_file_replaced_with_preserved_timestamps")
+            _put(path, step[1])
+            model_file = _read(path)
+            continue
+        via = step[1]
+        before = model_file
+        state = "no-file" if before is None else ("valid-file" if len(before) == 32 else "bad-file")
+        if kind == "loadgood" and before is None:
+            continue  # there is no key yet under which a document could have been written
+        if before is not None:
+            everkeys.append(before)
+        # the key a well-formed secret of this step is encrypted under (for a malformed file: its content, cut or repeated)
+        k32 = before if state == "valid-file" else ((before or b"") * 32 + bytes(32))[:32]
+        text = raw = None
+        try:
+            if kind == "dump":
+                text = step[2]
+                setattr(cfg.db if nested else cfg, "secret", text)
+                if via == "file":
+                    cfg.save(docpath, format="json")
+                    with open(docpath, "rb") as fp:
+                        raw = fp.read()
+                else:
+                    raw = cfg.dumps(format="json")
+            elif kind == "loadgood":
+                text, iv = step[2], bytes((step[4] + 7 * i) % 256 for i in range(16))
+                ct = aes_ref.xor_stream(k32, text.encode()) if step[3] == "xor" else aes_ref.aes_encrypt(k32, iv, text.encode())
+                load(via, doc_of(node_of(step[3], ct)))
+            else:
+                bad, r, text = step[2], step[3], step[4]
+                more = {}
+                if bad == "aes-short":
+                    node = node_of("aes", bytes((r + 3 * i) % 256 for i in range(r % 32)))
+                elif bad == "method-unknown":
+                    node = node_of(["rot13", "des", "AES", "none", "xor "][r % 5], aes_ref.xor_stream(k32, text.encode()))
+                elif bad == "aes-padding":
+                    other = bytes(b ^ 0x55 for b in k32)
+                    node = node_of("aes", aes_ref.aes_encrypt(other, bytes(16), text.encode()))
+                elif bad == "xor-not-text":
+                    node = node_of("xor", aes_ref.xor_stream(k32, b"\xff\xfe" + text.encode() + b"\xc3"))
+                else:
+                    node = node_of("xor", aes_ref.xor_stream(k32, text.encode()))
+                    more = {"port": ["zzz", 1000, -5, None, [1]][r % 5]}
+                load(via, doc_of(node, **more))
+            ok, err = True, None
+        except Exception as exc:
+            ok, err = False, exc
+        now = _read(path)
+        judged += 1
+        feat = "config-%s@%s" % (kind, state)
+        # -- the file
+        if state == "no-file":
+            if now is not None:
+                res.count("config_key_files_created")
+                if len(now) != 32:
+                    res.viol("M-file", feat, "step %d: missing key file was created with %d bytes" % (idx, len(now)))
+                everkeys.append(now)
+            elif kind == "dump" and ok:
+                res.viol("M-file", feat, "step %d: a secret was written although no key file exists or was created" % idx)
+        elif now != before:
+            res.viol("M-file", feat, "step %d: a %d-byte key file was modified by %s of a configuration" % (idx, len(before), kind))
+        model_file = now
+        # -- the outcome
+        if not ok:
+            failed_this = True
+            if kind == "loadbad":
+                res.count("config_failed_loads_that_reached_the_key_file")
+            if kind in ("dump", "loadgood") and state != "bad-file":
+                res.viol("M-model" if kind == "dump" else "M-key", feat, "step %d: %s raised %r with %s" % (
+                    idx, "writing a secret" if kind == "dump" else "reading a secret encrypted under the key file's content", err,
+                    "a valid 32-byte key file" if state == "valid-file" else "a missing key file in a writable directory"))
+        else:
+            failed_this = False
+            if state == "bad-file" and kind == "dump":
+                if b'"ciphertext"' in raw:
+                    res.viol("M-model", feat, "step %d: a secret was encrypted and written with a %d-byte key file" % (idx, len(before)))
+            elif state == "bad-file" and kind == "loadgood":
+                if isinstance((cfg.db if nested else cfg).secret, str):
+                    res.viol("M-model", feat, "step %d: an encrypted secret was read with a %d-byte key file" % (idx, len(before)))
+            elif kind == "loadgood":
+                res.count("config_secrets_read_under_file_key")
+                got = (cfg.db if nested else cfg).secret
+                if got != text:
+                    res.viol("M-key", feat, "step %d: a secret encrypted under the key file's content was read as other text" % idx)
+            elif kind == "dump" and now is not None and len(now) == 32:
+                try:
+                    tree = json.loads(raw.decode())
+                    sec = (tree["db"] if nested else tree)["secret"]
+                    method, ct = sec["method"], base64.b64decode(sec["ciphertext"])
+                except Exception:
+                    method = ct = None
+                    res.count("config_documents_without_a_readable_secret")
+                if method == "xor":
+                    same = bytes(a ^ b for a, b in zip(ct, text.encode())) == (now * 2)[:len(text.encode())] and len(ct) == len(text.encode())
+                elif method == "aes":
+                    same = aes_ref.aes_decrypt(now, ct) == text.encode()
+                else:
+                    same = None
+                if same is not None:
+                    res.count("config_key_measured")
+                    if failed_before:
+                        res.count("config_key_measured_after_a_failed_operation")
+                    if not same:
+                        res.viol("M-key", feat + ("/after-failure" if failed_before else ""), "step %d: the secret written by the "
+                                 "configuration is not encrypted under the key file's content %s..%s" % (
+                                     idx, now[:4].hex(), " (an earlier operation of this configuration had failed)" if failed_before else ""))
+        failed_before = failed_before or failed_this
+        # -- the key object between two operations: no context is open
+        kf = cfg._keyfile
+        res.count("config_ops_followed_by_closed_object_checks")
+        tail = "%s%s" % (kind, "-failed" if failed_this else "")
+        try:
+            kf.encrypt(PLAIN, method="xor")
+            works = True
+        except Exception:
+            works = False
+        if works:
+            res.viol("M-model", "outside-context/after-config-" + tail, "step %d: encrypt() on the configuration's key object works "
+                     "although no key context is open (after %s%s)" % (idx, kind, ", which raised %r" % (err,) if failed_this else ""))
+        for k in everkeys[-6:]:
+            if len(k) >= 16 and _scan(kf, k) is not None:
+                res.viol("M-retain", "after-config-" + tail, "step %d: key material reachable from the configuration's key object "
+                         "after %s returned%s" % (idx, kind, " with an exception" if failed_this else ""))
+                break
+    if judged:
+        res.nontrivial("config", case["init"], case["steps"], case["method"], nested)
 
 
 def _scan(obj, key, depth=0, seen=None):
@@ -241,6 +462,9 @@ def run(case, ctx, res):
     where = case["where"]
     if where == "unreadable":
         return _unreadable_key_file(case, ctx, res)
+    config = where == "config"
+    if config:
+        where = "ok"  # the key file is placed and named as in the other histories
     given = None
     fname = case.get("fname", "app.key")
     if "%" in fname:
@@ -275,6 +499,19 @@ def run(case, ctx, res):
     if where == "ok":
         _put(path, case["init"])
     given = given or path
+    # the type of the name: open(), os.path.expanduser() and os.path.exists() take text, bytes and path objects alike
+    ptype = case.get("pathtype", "str")
+    if ptype != "str":
+        given = os.fsencode(given) if ptype == "bytes" else pathlib.Path(given)
+        try:
+            cc.KeyFile(given)
+        except (TypeError, ValueError):
+            # a library that refuses such names outright is not judged (the property does not say which types name a file)
+            res.count("key_file_name_type_refused_by_the_constructor")
+            return
+        res.count("key_file_named_by_bytes_path" if ptype == "bytes" else "key_file_named_by_pathlib_path")
+    if config:
+        return _config_sessions(case, ctx, res, path, given)
     log = FileLog(ctx.sb.root)
     objs = [cc.KeyFile(given) for _ in range(case["nobj"])]
     depth = [0] * case["nobj"]
